@@ -3,7 +3,7 @@
 \* (pair of intervals) on a K-point grid.  The last two ASSUMEs show that the
 \* lemmas are not vacuous: they are refuted for the operators transcribed from
 \* the code as it was found (intersection at equal bounds, emptiness of a
-\* half-open degenerate interval).
+\* half-open degenerate interval, inclusion that ignores the open/closed ends).
 EXTENDS Interval, TLC
 CONSTANT K
 ASSUME LemInter(K, Inter)
@@ -13,8 +13,12 @@ ASSUME LemIncludes(K)
 ASSUME LemNearest(K)
 ASSUME LemLimit(K)
 ASSUME LemInterAlgebra(K)
+ASSUME LemSame(K)
+ASSUME LemSub(K, SubI)
+ASSUME LemCmp(K)
 ASSUME ~LemInter(K, InterOld)
 ASSUME ~LemEmpty(K, IsEmptyOld)
+ASSUME ~LemSub(K, SubOld)
 VARIABLE x
 Init == x = 0
 Next == UNCHANGED x
